@@ -126,8 +126,15 @@ def _chain_builders():
             v = {"k": v, "n": a + i}
         return v
 
+    def union_rec(d, a, b):  # UnionRec = "t.Union[list[UnionRec], int]"
+        v = b
+        for i in range(d):
+            v = [v, a + i]
+        return v
+
     return {"Chain": (M.Chain, chain), "PNode": (M.PNode, pnode), "Tree": (M.Tree, tree), "DNode": (M.DNode, dnode),
-            "TNode": (M.TNode, tnode), "Ping": (M.Ping, ping), "RecAlias": (M.RecAlias, rec_alias), "OptRec": (M.OptRec, opt_rec)}
+            "TNode": (M.TNode, tnode), "Ping": (M.Ping, ping), "RecAlias": (M.RecAlias, rec_alias), "OptRec": (M.OptRec, opt_rec),
+            "UnionRec": (M.UnionRec, union_rec)}
 
 
 def _levels(v, depth=0):
@@ -142,6 +149,10 @@ def _levels(v, depth=0):
     elif isinstance(v, dict):
         for y in v.values():
             if isinstance(y, dict):
+                yield from _levels(y, depth + 1)
+    elif isinstance(v, list):
+        for y in v:
+            if isinstance(y, list):
                 yield from _levels(y, depth + 1)
 
 
